@@ -351,7 +351,58 @@ func matrixPrograms() []matrixProg {
 	out = append(out, matrixProg{name: "ranges", p: mxRanges(), wasmOK: true})
 	out = append(out, matrixProg{name: "stale-constants", p: mxStaleConstants(), wasmOK: true})
 	out = append(out, matrixProg{name: "self-referential-assignment", p: mxSelfAssign(), wasmOK: true})
+	out = append(out, matrixProg{name: "dynamic-array-growth", p: mxDynGrowth(), wasmOK: true})
 	return out
+}
+
+// mxDynGrowth: dynamic arrays that start from a literal and grow — by append, by a longer literal,
+// inside loops — and are then read through compile-time-known indices at positions that exist only
+// because of the growth (also negative indices counted from the new end), for several element types.
+func mxDynGrowth() *gen.Program {
+	I32 := gen.I32
+	p := &gen.Program{Features: map[string]bool{}}
+	var m []gen.Stmt
+	n := 0
+	for ti, et := range []*gen.Type{gen.I32, gen.I64, gen.U8, gen.I16} {
+		dt := &gen.Type{K: gen.KDyn, Elem: et}
+		name := fmt.Sprintf("xs%d", ti)
+		xs := &gen.Var{Name: name, T: dt}
+		lit3 := &gen.ArrLit{T: dt, Elems: []gen.Expr{mxLit(et, 1), mxLit(et, 2), mxLit(et, 3)}}
+		m = append(m, &gen.Let{Name: name, T: dt, Init: lit3, Annot: true})
+		rd := func(k int64) {
+			n++
+			m = append(m, mxPrintLet(fmt.Sprintf("r%d", n), et, &gen.Index{X: xs, I: mxLit(I32, k), T: et})...)
+		}
+		rd(2)
+		m = append(m, &gen.Append{Arr: xs, Val: mxLit(et, 40)})
+		rd(3)
+		rd(-1)
+		m = append(m, &gen.Append{Arr: xs, Val: mxLit(et, 50)}, &gen.Append{Arr: xs, Val: mxLit(et, 60)})
+		rd(5)
+		rd(-6)
+		// a longer literal replaces the array
+		lit8 := &gen.ArrLit{T: dt}
+		for k := 0; k < 8; k++ {
+			lit8.Elems = append(lit8.Elems, mxLit(et, int64(70+k)))
+		}
+		m = append(m, &gen.Assign{LHS: xs, Op: "=", RHS: lit8})
+		rd(7)
+		rd(-8)
+		// a shorter literal, then growth in a loop
+		m = append(m, &gen.Assign{LHS: xs, Op: "=", RHS: &gen.ArrLit{T: dt, Elems: []gen.Expr{mxLit(et, 9)}}})
+		c := fmt.Sprintf("gi%d", ti)
+		cv := &gen.Var{Name: c, T: I32}
+		m = append(m, &gen.Let{Name: c, T: I32, Init: mxLit(I32, 0), Annot: true},
+			&gen.While{Cond: &gen.Bin{Op: "<", L: cv, R: mxLit(I32, 4), T: gen.TBool}, Body: []gen.Stmt{
+				&gen.Append{Arr: xs, Val: &gen.Cast{X: &gen.Bin{Op: "+", L: cv, R: mxLit(I32, 10), T: I32}, T: et}},
+				&gen.Assign{LHS: cv, Op: "=", RHS: &gen.Bin{Op: "+", L: cv, R: mxLit(I32, 1), T: I32}}}})
+		rd(4)
+		rd(-5)
+		n++
+		m = append(m, mxPrintLet(fmt.Sprintf("len%d", n), I32, &gen.Len{X: xs})...)
+	}
+	p.Main = m
+	return p
 }
 
 // mxSelfAssign: aggregates assigned from a literal whose components read the destination itself
